@@ -1019,6 +1019,26 @@ Proof.
   intros [->|[->|[->|[->|[->|[->|[->| ->]]]]]]]; lia.
 Qed.
 
+Definition asz_ok (a : N) : Prop := a = 1 \/ a = 2 \/ a = 4 \/ a = 8.
+
+Lemma asz_cases_pow2 a : (a = 1 \/ a = 2 \/ a = 4 \/ a = 8) -> is_u8 a = true /\ is_pow2 a = true.
+Proof. intros [->|[->|[->| ->]]]; split; reflexivity. Qed.
+
+Lemma asz_ok_dec a : ((a =? 1) || (a =? 2) || (a =? 4) || (a =? 8)) = true <-> asz_ok a.
+Proof. unfold asz_ok. lia. Qed.
+
+Lemma write_nop_ok_asz dbg L a pad : write_nop dbg L a = Ok pad -> asz_ok a.
+Proof.
+  unfold write_nop. destruct ((a =? 1) || (a =? 2) || (a =? 4) || (a =? 8)) eqn:E; cbn [negb]; [|discriminate].
+  intros _. apply asz_ok_dec. exact E.
+Qed.
+
+Lemma write_nop_unsupported dbg L a : ~ asz_ok a -> write_nop dbg L a = Err WUnsupportedWordSize.
+Proof.
+  intros H. unfold write_nop. destruct ((a =? 1) || (a =? 2) || (a =? 4) || (a =? 8)) eqn:E; [|reflexivity].
+  apply asz_ok_dec in E. contradiction.
+Qed.
+
 Lemma all_nop_repeat n : all_nop (repeat x00 n) = true.
 Proof. induction n as [|n IH]; [reflexivity|]. cbn [repeat all_nop forallb]. exact IH. Qed.
 
@@ -1028,8 +1048,7 @@ Lemma write_nop_spec dbg L a pad :
 Proof.
   intros Hu Hp H. pose proof (pow2_u8_cases a Hu Hp) as Hc.
   unfold write_nop in H.
-  destruct (a =? 0); [discriminate|].
-  destruct (dbg && negb (N.land a (a - 1) =? 0)); [discriminate|].
+  destruct (negb ((a =? 1) || (a =? 2) || (a =? 4) || (a =? 8))); [discriminate|].
   destruct (dbg && (L =? 0)); [discriminate|].
   injection H as <-.
   rewrite (land_pow2m1 a _ Hc). unfold wrap64, two64, len.
@@ -1137,6 +1156,36 @@ Proof.
   exists il, (ptr ++ addrs ++ augdata), insns, pad.
   rewrite <- !app_assoc in *.
   repeat split; assumption.
+Qed.
+
+Lemma close_entry_ok_asz dbg be fmt64 asize body bs : close_entry dbg be fmt64 asize body = Ok bs -> asz_ok asize.
+Proof.
+  unfold close_entry. intros H. apply bind_ok_inv in H. destruct H as (pad & Hpad & _).
+  eapply write_nop_ok_asz. exact Hpad.
+Qed.
+
+Lemma cie_write_ok_asz dbg be eh pos c bs : cie_write dbg be eh pos c = Ok bs -> asz_ok (c_asize c).
+Proof.
+  intros H. unfold cie_write in H.
+  destruct (if eh then negb (c_version c =? 1)
+            else negb ((c_version c =? 1) || (c_version c =? 3) || (c_version c =? 4))); [discriminate|].
+  apply bind_ok_inv in H. destruct H as (cafb & _ & H).
+  apply bind_ok_inv in H. destruct H as (dafb & _ & H).
+  apply bind_ok_inv in H. destruct H as (rab & _ & H).
+  apply bind_ok_inv in H. destruct H as (augdata & _ & H).
+  apply bind_ok_inv in H. destruct H as (insns & _ & H).
+  eapply close_entry_ok_asz. exact H.
+Qed.
+
+Lemma fde_write_ok_asz dbg be eh pos coff c f bs : fde_write dbg be eh pos coff c f = Ok bs -> asz_ok (c_asize c).
+Proof.
+  intros H. unfold fde_write in H.
+  apply bind_ok_inv in H. destruct H as (ptr & _ & H).
+  apply bind_ok_inv in H. destruct H as (addrs & _ & H).
+  destruct (negb (Bool.eqb (is_some (f_lsda f)) (is_some (c_lsda_enc c)))); [discriminate|].
+  apply bind_ok_inv in H. destruct H as (augdata & _ & H).
+  apply bind_ok_inv in H. destruct H as (insns & _ & H).
+  eapply close_entry_ok_asz. exact H.
 Qed.
 
 (* the area after the header decodes to the instructions followed by nops only *)
@@ -1779,20 +1828,19 @@ Proof.
   apply bind_not_panic; [apply write_udata_np|]. intros b _. discriminate.
 Qed.
 
-Lemma write_nop_np dbg L a : is_u8 a = true -> is_pow2 a = true -> 0 < L -> write_nop dbg L a <> Panic.
+Lemma write_nop_np dbg L a : 0 < L -> write_nop dbg L a <> Panic.
 Proof.
-  intros Hu Hp HL. unfold write_nop. unfold is_pow2 in Hp. apply andb_true_iff in Hp. destruct Hp as [Hp1 Hp2].
-  destruct (a =? 0) eqn:E0; [discriminate|].
-  rewrite Hp2. cbn [negb]. rewrite andb_false_r.
+  intros HL. unfold write_nop.
+  destruct (negb ((a =? 1) || (a =? 2) || (a =? 4) || (a =? 8))); [discriminate|].
   destruct (dbg && (L =? 0)) eqn:E; [lia|]. discriminate.
 Qed.
 
 Lemma close_entry_np dbg be fmt64 asize body :
-  is_u8 asize = true -> is_pow2 asize = true -> close_entry dbg be fmt64 asize body <> Panic.
+  close_entry dbg be fmt64 asize body <> Panic.
 Proof.
-  intros Hu Hp. unfold close_entry.
+  unfold close_entry.
   apply bind_not_panic.
-  - apply write_nop_np; [assumption|assumption|]. destruct fmt64; cbn [ilen_size]; lia.
+  - apply write_nop_np. destruct fmt64; cbn [ilen_size]; lia.
   - intros pad _. apply bind_not_panic; [apply write_initial_length_np|]. intros il _. discriminate.
 Qed.
 
@@ -1800,9 +1848,9 @@ Ltac split_wf H :=
   repeat match type of H with _ && _ = true => let H2 := fresh "W" in apply andb_true_iff in H; destruct H as [H H2] end.
 
 Lemma cie_write_np dbg be eh pos c :
-  cie_wf c = true -> is_pow2 (c_asize c) = true -> cie_write dbg be eh pos c <> Panic.
+  cie_wf c = true -> cie_write dbg be eh pos c <> Panic.
 Proof.
-  intros Hwf Hp. unfold cie_wf in Hwf. split_wf Hwf.
+  intros Hwf. unfold cie_wf in Hwf. split_wf Hwf.
   rename W into Hinsns, W0 into Hfe, W1 into Hle, W2 into Hpe, W3 into Hra, W4 into Hdaf, W5 into Hcaf, W6 into Hasz.
   unfold cie_write.
   destruct (if eh then negb (c_version c =? 1)
@@ -1829,15 +1877,15 @@ Proof.
       destruct (c_lsda_enc c); destruct (negb (c_fde_enc c =? 0)); cbn [length]; lia. }
   intros augdata _.
   apply bind_not_panic; [apply write_insns_np; [exact Hinsns|apply is_i8_iff; exact Hdaf]|]. intros insns _.
-  apply close_entry_np; assumption.
+  apply close_entry_np.
 Qed.
 
 Lemma fde_write_np dbg be eh pos coff c f :
-  cie_wf c = true -> is_pow2 (c_asize c) = true -> fde_wf f = true ->
+  cie_wf c = true -> fde_wf f = true ->
   coff <= pos ->
   fde_write dbg be eh pos coff c f <> Panic.
 Proof.
-  intros Hwf Hp Hf Hcoff. unfold cie_wf in Hwf. split_wf Hwf.
+  intros Hwf Hf Hcoff. unfold cie_wf in Hwf. split_wf Hwf.
   rename W into Hinsns, W0 into Hfe, W1 into Hle, W2 into Hpe, W3 into Hra, W4 into Hdaf, W5 into Hcaf, W6 into Hasz.
   unfold fde_wf in Hf. split_wf Hf. rename W into Hfi, W0 into Hfl, W1 into Hflen.
   unfold fde_write.
@@ -1866,7 +1914,7 @@ Proof.
   apply bind_not_panic.
   { apply write_fde_insns_np; [exact Hfi|exact Hcaf|exact Hdaf|reflexivity]. }
   intros insns _.
-  apply close_entry_np; assumption.
+  apply close_entry_np.
 Qed.
 
 (* the loop: offsets recorded so far never exceed the current position *)
@@ -1874,7 +1922,7 @@ Definition offs_le (offs : list (option N)) (pos : N) : Prop :=
   forall i o, nth_error offs i = Some (Some o) -> o <= pos.
 
 Lemma write_fdes_np dbg be eh cies : forall fdes offs pos,
-  Forall (fun c => cie_wf c = true /\ is_pow2 (c_asize c) = true) cies ->
+  Forall (fun c => cie_wf c = true) cies ->
   Forall (fun p => fde_wf (snd p) = true /\ exists c, nth_error cies (fst p) = Some c) fdes ->
   length offs = length cies -> offs_le offs pos ->
   write_fdes dbg be eh cies offs pos fdes <> Panic.
@@ -1882,9 +1930,8 @@ Proof.
   induction fdes as [|[idx f] rest IH]; intros offs pos Hc Hf Hlen Hle; cbn [write_fdes]; [discriminate|].
   inversion Hf as [|x l Hx Hrest]; subst. cbn [fst snd] in Hx. destruct Hx as (Hfw & c & Hnth).
   rewrite Hnth. cbn [unwrap bind].
-  assert (Hcw : cie_wf c = true /\ is_pow2 (c_asize c) = true).
+  assert (Hcw : cie_wf c = true).
   { rewrite Forall_forall in Hc. apply Hc. eapply nth_error_In. exact Hnth. }
-  destruct Hcw as [Hcw Hcp].
   assert (Hidx : (idx < length offs)%nat) by (rewrite Hlen; apply nth_error_Some; congruence).
   destruct (nth_error offs idx) as [slot|] eqn:Eslot; [|apply nth_error_None in Eslot; lia].
   cbn [unwrap bind].
@@ -1911,7 +1958,7 @@ Proof.
 Qed.
 
 Lemma write_table_np dbg be eh pos t :
-  Forall (fun c => cie_wf c = true /\ is_pow2 (c_asize c) = true) (t_cies t) ->
+  Forall (fun c => cie_wf c = true) (t_cies t) ->
   Forall (fun p => fde_wf (snd p) = true /\ exists c, nth_error (t_cies t) (fst p) = Some c) (t_fdes t) ->
   write_table dbg be eh pos t <> Panic.
 Proof.
@@ -2067,8 +2114,9 @@ Lemma cie_wf_parts c : cie_wf c = true ->
 Proof. intros H. unfold cie_wf in H. split_wf H. auto. Qed.
 
 Lemma entry_layout_cie_pack : forall (dbg be eh : bool) (pos : N) (c : cie) bs,
-  cie_wf c = true -> is_pow2 (c_asize c) = true ->
+  cie_wf c = true ->
   cie_write dbg be eh pos c = Ok bs ->
+  asz_ok (c_asize c) /\
   exists il hdr area,
     bs = il ++ hdr ++ area /\
     write_initial_length (c_fmt64 c) be (len (hdr ++ area)) = Ok il /\ len il = ilen_size (c_fmt64 c) /\
@@ -2076,7 +2124,9 @@ Lemma entry_layout_cie_pack : forall (dbg be eh : bool) (pos : N) (c : cie) bs,
     exists ds n, decode_all be area = Some (ds ++ repeat DNop n) /\ N.of_nat n < c_asize c /\
                  map (sem (c_caf c) (c_daf c)) ds = map MInsn (c_insns c).
 Proof.
-  intros dbg be eh pos c bs Hwf Hp H.
+  intros dbg be eh pos c bs Hwf H.
+  pose proof (cie_write_ok_asz _ _ _ _ _ _ H) as Hasz. split; [exact Hasz|].
+  destruct (asz_cases_pow2 _ Hasz) as [_ Hp].
   destruct (cie_wf_parts c Hwf) as (Hu & Hcaf & Hdaf & Hins).
   destruct (cie_write_layout dbg be eh pos c bs Hu Hp H)
     as (il & hdr & insns & pad & -> & Hil & Hlen & Hw & Hnop & Hpad & Hmod).
@@ -2091,8 +2141,9 @@ Lemma fde_wf_parts f : fde_wf f = true -> forallb fde_insn_wf (f_insns f) = true
 Proof. intros H. unfold fde_wf in H. split_wf H. auto. Qed.
 
 Lemma entry_layout_fde_pack : forall (dbg be eh : bool) (pos coff : N) (c : cie) (f : fde) bs,
-  cie_wf c = true -> is_pow2 (c_asize c) = true -> fde_wf f = true ->
+  cie_wf c = true -> fde_wf f = true ->
   fde_write dbg be eh pos coff c f = Ok bs ->
+  asz_ok (c_asize c) /\
   exists il hdr area,
     bs = il ++ hdr ++ area /\
     write_initial_length (c_fmt64 c) be (len (hdr ++ area)) = Ok il /\ len il = ilen_size (c_fmt64 c) /\
@@ -2100,7 +2151,9 @@ Lemma entry_layout_fde_pack : forall (dbg be eh : bool) (pos coff : N) (c : cie)
     exists ds n, decode_all be area = Some (ds ++ repeat DNop n) /\ N.of_nat n < c_asize c /\
                  locate 0 (map (sem (c_caf c) (c_daf c)) (ds ++ repeat DNop n)) = f_insns f.
 Proof.
-  intros dbg be eh pos coff c f bs Hwf Hp Hfw H.
+  intros dbg be eh pos coff c f bs Hwf Hfw H.
+  pose proof (fde_write_ok_asz _ _ _ _ _ _ _ _ H) as Hasz. split; [exact Hasz|].
+  destruct (asz_cases_pow2 _ Hasz) as [_ Hp].
   destruct (cie_wf_parts c Hwf) as (Hu & Hcaf & Hdaf & _).
   pose proof (fde_wf_parts f Hfw) as Hins.
   destruct (fde_write_layout dbg be eh pos coff c f bs Hu Hp H)
@@ -2132,7 +2185,7 @@ Definition tile_reads_back (be : bool) (cies : list cie) (fdes : list (nat * fde
   end.
 
 Lemma well_tiled_reads_back dbg be eh cies fdes :
-  Forall (fun c => cie_wf c = true /\ is_pow2 (c_asize c) = true) cies ->
+  Forall (fun c => cie_wf c = true) cies ->
   Forall (fun p => fde_wf (snd p) = true) fdes ->
   forall chunks pos placed, well_tiled dbg be eh cies fdes pos placed chunks ->
   Forall (tile_reads_back be cies fdes) chunks.
@@ -2140,25 +2193,23 @@ Proof.
   intros Hc Hf. induction chunks as [|[it b] r IH]; intros pos placed H; [constructor|].
   destruct it as [idx|k]; cbn [well_tiled] in H; destruct H as [H Hr]; constructor; try (eapply IH; exact Hr).
   - destruct H as (c & Hn & Hw).
-    assert (Hcw : cie_wf c = true /\ is_pow2 (c_asize c) = true).
+    assert (Hcw : cie_wf c = true).
     { rewrite Forall_forall in Hc. apply Hc. eapply nth_error_In. exact Hn. }
-    destruct Hcw as [Hcw Hcp].
-    destruct (entry_layout_cie_pack dbg be eh pos c b Hcw Hcp Hw)
-      as (il & hdr & area & -> & _ & Hlen & _ & ds & n & Hd & Hn' & Hm).
+    destruct (entry_layout_cie_pack dbg be eh pos c b Hcw Hw)
+      as (_ & il & hdr & area & -> & _ & Hlen & _ & ds & n & Hd & Hn' & Hm).
     cbn [tile_reads_back]. exists c, il, hdr, area, ds, n. auto 10.
   - destruct H as (idx & f & c & coff & Hk & Hn & _ & Hw).
-    assert (Hcw : cie_wf c = true /\ is_pow2 (c_asize c) = true).
+    assert (Hcw : cie_wf c = true).
     { rewrite Forall_forall in Hc. apply Hc. eapply nth_error_In. exact Hn. }
-    destruct Hcw as [Hcw Hcp].
     assert (Hfw : fde_wf f = true).
     { rewrite Forall_forall in Hf. apply (Hf (idx, f)). eapply nth_error_In. exact Hk. }
-    destruct (entry_layout_fde_pack dbg be eh pos coff c f b Hcw Hcp Hfw Hw)
-      as (il & hdr & area & -> & _ & Hlen & _ & ds & n & Hd & Hn' & Hm).
+    destruct (entry_layout_fde_pack dbg be eh pos coff c f b Hcw Hfw Hw)
+      as (_ & il & hdr & area & -> & _ & Hlen & _ & ds & n & Hd & Hn' & Hm).
     cbn [tile_reads_back]. exists idx, f, c, il, hdr, area, ds, n. auto 12.
 Qed.
 
 Lemma table_roundtrip_partial_pack : forall (dbg be eh : bool) (pos : N) (t : ftable) bs,
-  Forall (fun c => cie_wf c = true /\ is_pow2 (c_asize c) = true) (t_cies t) ->
+  Forall (fun c => cie_wf c = true) (t_cies t) ->
   Forall (fun p => fde_wf (snd p) = true) (t_fdes t) ->
   write_table dbg be eh pos t = Ok bs ->
   exists chunks,
@@ -2565,8 +2616,6 @@ Proof.
     exact Hpb.
 Qed.
 
-Lemma asz_cases_pow2 a : (a = 1 \/ a = 2 \/ a = 4 \/ a = 8) -> is_u8 a = true /\ is_pow2 a = true.
-Proof. intros [->|[->|[->| ->]]]; split; reflexivity. Qed.
 
 Lemma version_cases (eh : bool) ver :
   (if eh then negb (ver =? 1) else negb ((ver =? 1) || (ver =? 3) || (ver =? 4))) = false ->
@@ -2578,7 +2627,6 @@ Proof. unfold len. cbn [length]. lia. Qed.
 
 Lemma cie_header_reads dbg be eh pos (c : cie) bs :
   cie_wf c = true ->
-  (c_asize c = 1 \/ c_asize c = 2 \/ c_asize c = 4 \/ c_asize c = 8) ->
   pos + len bs < 18446744073709551616 ->
   cie_write dbg be eh pos c = Ok bs ->
   exists il body insns pad,
@@ -2588,7 +2636,8 @@ Lemma cie_header_reads dbg be eh pos (c : cie) bs :
     parse_cie_body be eh (c_fmt64 c) (c_asize c) (pos + ilen_size (c_fmt64 c)) body
       = Some (cie_fields_of c, insns ++ pad).
 Proof.
-  intros Hwf Hasz Hfit H.
+  intros Hwf Hfit H.
+  pose proof (cie_write_ok_asz _ _ _ _ _ _ H) as Hasz.
   destruct (asz_cases_pow2 _ Hasz) as [Hu8 Hp2].
   pose proof Hwf as Hwf0. unfold cie_wf in Hwf. split_wf Hwf.
   rename W into Hinsns, W0 into Hfe, W1 into Hle, W2 into Hpe, W3 into Hra, W4 into Hdaf, W5 into Hcaf, W6 into Hasz8.
@@ -2741,7 +2790,6 @@ Qed.
 
 Lemma fde_header_reads dbg be eh pos coff (c : cie) (f : fde) bs :
   cie_wf c = true -> fde_wf f = true ->
-  (c_asize c = 1 \/ c_asize c = 2 \/ c_asize c = 4 \/ c_asize c = 8) ->
   pos + len bs < 18446744073709551616 -> coff <= pos ->
   fde_write dbg be eh pos coff c f = Ok bs ->
   exists il body insns pad,
@@ -2752,7 +2800,8 @@ Lemma fde_header_reads dbg be eh pos coff (c : cie) (f : fde) bs :
                    (pos + ilen_size (c_fmt64 c)) body
       = Some (fde_fields_of c f coff, insns ++ pad).
 Proof.
-  intros Hwf Hfwf Hasz Hfit Hcoff H.
+  intros Hwf Hfwf Hfit Hcoff H.
+  pose proof (fde_write_ok_asz _ _ _ _ _ _ _ _ H) as Hasz.
   destruct (asz_cases_pow2 _ Hasz) as [Hu8 Hp2].
   pose proof Hwf as Hwf0. unfold cie_wf in Hwf. split_wf Hwf.
   rename W into Hinsns, W0 into Hfe, W1 into Hle, W2 into Hpe, W3 into Hra, W4 into Hdaf, W5 into Hcaf, W6 into Hasz8.
@@ -2891,11 +2940,10 @@ Section ReadsBack.
     end.
 End ReadsBack.
 
-Definition asz_ok (a : N) : Prop := a = 1 \/ a = 2 \/ a = 4 \/ a = 8.
 
 
 Lemma reads_back_of_tiled dbg be eh cies fdes :
-  Forall (fun c => cie_wf c = true /\ asz_ok (c_asize c)) cies ->
+  Forall (fun c => cie_wf c = true) cies ->
   Forall (fun p => fde_wf (snd p) = true) fdes ->
   forall chunks pos placed,
     pos + len (concat (map snd chunks)) < 18446744073709551616 ->
@@ -2907,11 +2955,10 @@ Proof.
   cbn [map snd concat] in Hfit. rewrite len_app in Hfit.
   destruct it as [idx|k]; cbn [well_tiled] in H; destruct H as [H Hr]; cbn [reads_back]; split.
   - destruct H as (c & Hn & Hw).
-    assert (Hcw : cie_wf c = true /\ asz_ok (c_asize c)).
+    assert (Hcw : cie_wf c = true).
     { rewrite Forall_forall in Hc. apply Hc. eapply nth_error_In. exact Hn. }
-    destruct Hcw as [Hcw Hca].
     destruct (cie_wf_parts c Hcw) as (_ & _ & Hdaf & Hins).
-    destruct (cie_header_reads dbg be eh pos c b Hcw Hca ltac:(lia) Hw)
+    destruct (cie_header_reads dbg be eh pos c b Hcw ltac:(lia) Hw)
       as (il & body & insns & pad & -> & Hlen & Hil & Hwi & Hnop & Hpad & Hparse).
     destruct (write_insns_decodes_ext dbg be (c_caf c) (c_daf c) (c_insns c) insns Hins Hdaf Hwi) as (ds & Hds & Hm).
     exists c, il, body, (insns ++ pad), ds, (length pad).
@@ -2920,9 +2967,8 @@ Proof.
   - apply IH; [lia| |exact Hr].
     constructor; [cbn [snd]; lia|]. eapply Forall_impl; [|exact Hpl]. cbn beta. intros p Hp. lia.
   - destruct H as (idx & f & c & coff & Hk & Hn & Hlk & Hw).
-    assert (Hcw : cie_wf c = true /\ asz_ok (c_asize c)).
+    assert (Hcw : cie_wf c = true).
     { rewrite Forall_forall in Hc. apply Hc. eapply nth_error_In. exact Hn. }
-    destruct Hcw as [Hcw Hca].
     assert (Hfw : fde_wf f = true).
     { rewrite Forall_forall in Hf. apply (Hf (idx, f)). eapply nth_error_In. exact Hk. }
     destruct (cie_wf_parts c Hcw) as (_ & Hcaf & Hdaf & _).
@@ -2932,7 +2978,7 @@ Proof.
       cbn [lookup] in Hlk. inversion Hpl as [|x l Hx Hl]; subst. destruct (Nat.eqb idx i).
       - injection Hlk as <-. exact Hx.
       - apply IHp; assumption. }
-    destruct (fde_header_reads dbg be eh pos coff c f b Hcw Hfw Hca ltac:(lia) Hcoff Hw)
+    destruct (fde_header_reads dbg be eh pos coff c f b Hcw Hfw ltac:(lia) Hcoff Hw)
       as (il & body & insns & pad & -> & Hlen & Hil & Hwi & Hnop & Hpad & Hparse).
     destruct (write_fde_insns_decodes_ext dbg be (c_caf c) (c_daf c) (f_insns f) 0 insns Hins Hcaf Hdaf eq_refl Hwi)
       as (ds & Hds & Hm).
@@ -2945,7 +2991,7 @@ Proof.
 Qed.
 
 Lemma table_roundtrip_pack : forall (dbg be eh : bool) (pos : N) (t : ftable) bs,
-  Forall (fun c => cie_wf c = true /\ asz_ok (c_asize c)) (t_cies t) ->
+  Forall (fun c => cie_wf c = true) (t_cies t) ->
   Forall (fun p => fde_wf (snd p) = true) (t_fdes t) ->
   pos + len bs < 18446744073709551616 ->
   write_table dbg be eh pos t = Ok bs ->
@@ -2977,7 +3023,7 @@ Proof.
 Qed.
 
 Lemma lsda_mismatch_is_error_pack : forall (dbg be eh : bool) (pos coff : N) (c : cie) (f : fde),
-  cie_wf c = true -> is_pow2 (c_asize c) = true -> fde_wf f = true -> coff <= pos ->
+  cie_wf c = true -> fde_wf f = true -> coff <= pos ->
   lsda_ok c f = false ->
   (forall bs, fde_write dbg be eh pos coff c f <> Ok bs) /\
   fde_write dbg be eh pos coff c f <> Panic /\
@@ -2991,9 +3037,33 @@ Lemma lsda_mismatch_is_error_pack : forall (dbg be eh : bool) (pos coff : N) (c 
            let* l := write_udata be (f_len f) (c_asize c) in Ok (a ++ l)) = Ok addrs ->
      fde_write dbg be eh pos coff c f = Err WInvalidAddress).
 Proof.
-  intros dbg be eh pos coff c f Hwf Hp Hf Hcoff Hls. split; [|split].
+  intros dbg be eh pos coff c f Hwf Hf Hcoff Hls. split; [|split].
   - intros bs E. apply lsda_mismatch_never_ok in E. congruence.
   - apply fde_write_np; assumption.
   - intros ptr addrs Hptr Haddrs. unfold fde_write. cbv zeta. rewrite Hptr. cbn [bind]. rewrite Haddrs. cbn [bind].
     unfold lsda_ok in Hls. rewrite Hls. reflexivity.
+Qed.
+
+(* ------------------------------------------------------------------ *)
+(* 16. address sizes other than 1/2/4/8 are an error                    *)
+(* ------------------------------------------------------------------ *)
+
+Lemma close_entry_unsupported dbg be fmt64 asize body :
+  ~ asz_ok asize -> close_entry dbg be fmt64 asize body = Err WUnsupportedWordSize.
+Proof. intros H. unfold close_entry. rewrite write_nop_unsupported by exact H. reflexivity. Qed.
+
+Lemma unsupported_address_size_pack : forall (dbg be eh : bool) (pos coff : N) (c : cie) (f : fde),
+  ~ asz_ok (c_asize c) ->
+  (forall body, close_entry dbg be (c_fmt64 c) (c_asize c) body = Err WUnsupportedWordSize) /\
+  (forall bs, cie_write dbg be eh pos c <> Ok bs) /\
+  (forall bs, fde_write dbg be eh pos coff c f <> Ok bs) /\
+  (cie_wf c = true -> cie_write dbg be eh pos c <> Panic) /\
+  (cie_wf c = true -> fde_wf f = true -> coff <= pos -> fde_write dbg be eh pos coff c f <> Panic).
+Proof.
+  intros dbg be eh pos coff c f Hn. split; [|split; [|split; [|split]]].
+  - intros body. apply close_entry_unsupported. exact Hn.
+  - intros bs H. apply cie_write_ok_asz in H. contradiction.
+  - intros bs H. apply fde_write_ok_asz in H. contradiction.
+  - apply cie_write_np.
+  - intros. apply fde_write_np; assumption.
 Qed.
